@@ -28,9 +28,9 @@ SPEC = {
 }
 MAXR = {"kida": 3, "umist": 2, "leeds": 3, "uclchem": 3, "naunet": 3, "krome": 3}
 MAXP = {"kida": 5, "umist": 4, "leeds": 5, "uclchem": 4, "naunet": 5, "krome": 5}
-LIT_A = ["1.0e-10", "-2.5e-10", "0.0", "1E-9", "3.14", "5e-324", "1.0e+20", "7"]
-LIT_A_LEEDS = ["1.0E-10", "-2.5E-10", "0.00", "1E-9", "3.14", "5E-324", "1.0E+20", "7"]
-LIT_B = ["0.0", "-0.5", "2.75", "1e-3", "-1.5e+00", "12.5", "0.5", "-3"]
+LIT_A = ["1.0e-10", "-2.500e-10", "0.0", "1E-9", "3.14", "5e-324", "1.0e+20", "7"]  # incl. a signed literal that fills the 10-character column
+LIT_A_LEEDS = ["1.0E-10", "-2.5E-10", "0.00", "1E-9", "3.14", "5E-324", "1.0E+20", "7"]  # -2.5E-10 fills the 8-character column
+LIT_B = ["0.0", "-0.5", "2.75", "1e-3", "-1.50e+00", "12.5", "0.5", "-3.040e+04"]  # 9- and 10-character signed literals fill the Leeds/KIDA columns
 WIN = [("10", "300"), ("-9999", "9999"), ("0", "0"), ("10", "41000"), ("5", "20"), ("100", "100"), ("2000", "41000"), ("1", "99999")]
 IDX = [1, 7, 99, 1000, 6173, 9999, 99999, 12]
 CODES = {
@@ -139,6 +139,8 @@ def _numeric_family(fmt, v):
     with prelude.NoTracing():
         r = _base(fmt)
         r["a"], r["b"], r["c"] = (LIT_A_LEEDS if fmt == "leeds" else LIT_A)[a % 8], LIT_B[b % 8], LIT_B[c % 8]
+        if fmt == "leeds" and len(r["b"]) > 9:
+            r["b"] = "-3.04e+04"  # the beta column of the Leeds format is 9 characters wide
         if fmt == "krome":
             r["rate"] = f"{LIT_A[a % 8].replace('e', 'd') if 'e' in LIT_A[a % 8] else LIT_A[a % 8]}*T32"
         reac, line = _decode(fmt, r)
